@@ -398,12 +398,18 @@ func windowRollover(run *rep.Run) {
 }
 
 func sizeScenarios(run *rep.Run) {
-	const L = 16384
-	const AM = 8192
-	for ei, eng := range []string{"sherpa", "olla"} {
+	// the second pair has the server's max_body_size at the translator's max_message_size (both
+	// default to the same value in a stock configuration)
+	sizeScenariosFor(run, 16384, 8192, 0)
+	sizeScenariosFor(run, 8192, 8192, 2)
+}
+
+func sizeScenariosFor(run *rep.Run, L, AM, eiBase int) {
+	for ei0, eng := range []string{"sherpa", "olla"} {
+		ei := ei0 + eiBase
 		b := backend.NewStd("b", []string{"mall"}, llmresp.Handler("b"))
 		bt := backend.NewStd("t", []string{"mtra"}, llmresp.Handler("t"))
-		w, err := world.Start(world.Spec{Engine: eng, Balancer: "priority", MaxBodySize: L, AnthropicMax: AM,
+		w, err := world.Start(world.Spec{Engine: eng, Balancer: "priority", MaxBodySize: int64(L), AnthropicMax: int64(AM),
 			Endpoints: []world.Endpoint{{Name: "b", URL: b.URL(), Type: "ollama", Priority: 100}, {Name: "t", URL: bt.URL(), Type: "sglang", Priority: 50}}})
 		if err != nil {
 			run.Inconclusive("world failed to start: " + err.Error())
@@ -456,7 +462,7 @@ func sizeScenarios(run *rep.Run) {
 						}
 					}
 					rel := map[bool]string{true: "above-limit", false: "within-limit"}[len(body) > limit]
-					run.Eval(fmt.Sprintf("size/%s/%s/%s/%d", eng, route, enc, size))
+					run.Eval(fmt.Sprintf("size/L=%d/AM=%d/%s/%s/%s/%d", L, AM, eng, route, enc, size))
 					run.Count("size_cases", 1)
 					wit := map[string]any{"engine": eng, "route": route, "encoding": enc, "body_bytes": len(body), "limit": limit, "client_status": res.Status, "client_body": res.BodyHead, "reached_backend": got != nil}
 					if len(body) > limit {
@@ -476,7 +482,12 @@ func sizeScenarios(run *rep.Run) {
 							run.Violation("C17/oversize-body-accepted/"+route+"/"+enc, fmt.Sprintf("status %d for a body above the limit", res.Status), wit)
 						}
 						if strings.HasPrefix(route, "anthropic") && res.Status != 413 {
-							run.Violation("C17/anthropic-oversize-not-413/"+enc, fmt.Sprintf("Anthropic request above max_message_size answered %d, not 413", res.Status), wit)
+							k := "C17/anthropic-oversize-not-413/" + enc
+							if L <= AM {
+								k += "/max_body_size<=max_message_size"
+							}
+							wit["max_body_size"], wit["max_message_size"] = L, AM
+							run.Violation(k, fmt.Sprintf("Anthropic request above max_message_size answered %d, not 413", res.Status), wit)
 						}
 					} else {
 						if got == nil || res.Status != 200 {
